@@ -1,50 +1,26 @@
-(** Text without escape sequences: in the INIT state every character other than ESC is emitted, i.e. goes through
-    write_ch, and the parser stays in INIT with its memory untouched.  The table fact is a finite check over the
-    REGENERATED table (the only exact INIT entry is ESC; the any-entry of INIT is DoEmit -> INIT), lifted to all characters. *)
+(** Text without escape sequences: in the INIT state every character the table emits (DoEmit -> INIT) goes through
+    write_ch, and the parser stays in INIT with its memory untouched.  Generic in the regenerated table; which characters
+    those are with the table as it stands is Ansi/PlainTable.v (every character but ESC). *)
 From Coq Require Import ZArith NArith List Bool.
 Import ListNotations.
 From PV Require Import Screen.Model Screen.Facts Ansi.Names Gen.AnsiTable Ansi.Model Ansi.Proofs.
 
-Definition init_exact_only_esc : bool :=
-  forallb (fun e : N * pst * (action * pst) => if pst_eqb S_INIT (snd (fst e)) then N.eqb (fst (fst e)) 27 else true) trans.
+(** generic in the table: the statement for whatever characters the table emits in INIT *)
+Definition emitted (c : N) : Prop := get_transition c S_INIT = (A_DoEmit, S_INIT).
 
-Lemma init_exact_only_esc_ok : init_exact_only_esc = true.
-Proof. vm_compute. reflexivity. Qed.
-
-Lemma init_any_is_emit : lookup_any S_INIT trans_any = Some (A_DoEmit, S_INIT).
-Proof. vm_compute. reflexivity. Qed.
-
-Lemma lookup_exact_entry c q l r : lookup_exact c q l = Some r -> In (c, q, r) l.
-Proof.
-  induction l as [|[[c' q'] r'] l IH]; cbn [lookup_exact]; [discriminate|].
-  destruct (N.eqb c c' && pst_eqb q q') eqn:E.
-  - intros [= ->]. apply andb_prop in E as [Ec Eq]. apply N.eqb_eq in Ec. subst c'.
-    assert (q = q') as -> by (destruct q, q'; cbn in Eq; try discriminate Eq; reflexivity). now left.
-  - intros H. right. now apply IH.
-Qed.
-
-Lemma init_transition c : c <> 27%N -> get_transition c S_INIT = (A_DoEmit, S_INIT).
-Proof.
-  intros Hc. unfold get_transition. destruct (lookup_exact c S_INIT trans) as [r|] eqn:E.
-  - exfalso. apply lookup_exact_entry in E.
-    pose proof init_exact_only_esc_ok as H. unfold init_exact_only_esc in H. rewrite forallb_forall in H.
-    specialize (H _ E). cbn [fst snd] in H. cbn [pst_eqb] in H. apply N.eqb_eq in H. contradiction.
-  - now rewrite init_any_is_emit.
-Qed.
-
-Theorem plain_char a c : pstate a = S_INIT -> c <> 27%N ->
+Theorem plain_char a c : pstate a = S_INIT -> emitted c ->
   process a c = Some (mkAnsi (write_ch (scrn a) c) S_INIT (stack a)).
 Proof.
-  intros Hq Hc. unfold process. rewrite Hq, (init_transition c Hc). cbn [act on_screen scrn stack]. reflexivity.
+  intros Hq Hc. unfold process. rewrite Hq, Hc. cbn [act on_screen scrn stack]. reflexivity.
 Qed.
 
-Theorem plain_text t : forall a, pstate a = S_INIT -> ~ In 27%N t ->
+Theorem plain_text t : forall a, pstate a = S_INIT -> Forall emitted t ->
   feed a t = Some (mkAnsi (fold_left write_ch t (scrn a)) S_INIT (stack a)).
 Proof.
   induction t as [|c t IH]; intros a Hq Hn; cbn [feed fold_left].
   - destruct a as [s q k]. cbn in *. now subst q.
-  - rewrite (plain_char a c Hq) by (intros ->; apply Hn; now left).
-    rewrite IH; [reflexivity | reflexivity | intros H; apply Hn; now right].
+  - inversion Hn as [|c' t' Hc Ht]; subst. rewrite (plain_char a c Hq Hc).
+    rewrite IH; [reflexivity | reflexivity | exact Ht].
 Qed.
 
 (** what emitting an ordinary character does when the cursor is not in the last column: the character lands in the
